@@ -35,6 +35,7 @@ func init() {
 		"os.Mkdir":                "OsMkdir",
 		"os.RemoveAll":            "OsRemoveAll",
 		"os.Rename":               "OsRename",
+		"os.Truncate":             "OsTruncate",
 		"(*os.File).Stat":         "FileStat",
 		"(*os.File).Readdirnames": "FileReaddirnames",
 		"(*os.File).ReadDir":      "FileReadDir",
@@ -84,6 +85,10 @@ func init() {
 		"(*github.com/dgraph-io/badger/v3.Item).String":                "ItemString",
 		"(*github.com/dgraph-io/badger/v3.Iterator).Rewind":            "IterRewind",
 		"(*github.com/dgraph-io/badger/v3.Iterator).Valid":             "IterValid",
+		"google.golang.org/grpc.NewServer":                             "GrpcNewServer",
+		"google.golang.org/grpc.ChainUnaryInterceptor":                 "GrpcChainUnaryInterceptor",
+		"google.golang.org/grpc.ChainStreamInterceptor":                "GrpcChainStreamInterceptor",
+		"(*google.golang.org/grpc.Server).RegisterService":             "GrpcRegisterService",
 		"google.golang.org/grpc/status.New":                            "StatusNew",
 		"google.golang.org/grpc/status.Convert":                        "StatusConvert",
 		"(*google.golang.org/grpc/internal/status.Status).WithDetails": "StatusWithDetails",
